@@ -198,7 +198,13 @@ def impl_fit(case):
         for w in case.get('warmup', []):          # other sources the same Fitter fitted before (their results are not examined)
             fitter.fit(make_source(w))
         info = fitter.fit(make_source(case['src']))
-        return info_out(info, fitter)
+        out = info_out(info, fitter)
+        if case['mode'] == '3d':      # the same fit with remove_resolved=True (not modelled; its rows are judged by the row / ranking / flux clauses only)
+            try:
+                out['rr'] = info_out(make_fitter(d, case, remove_resolved=True).fit(make_source(case['src'])))
+            except Exception as e:
+                out['rr'] = {'exc': '%s: %s' % (type(e).__name__, e)}
+        return out
 
 
 # ---------------------------------------------------------------------------
